@@ -45,6 +45,15 @@ META = {
 }
 
 VARS = ["a", "b", "c", "d", "e"]
+# identifier spellings (the parser looks at the spelling: std::isupper in the sizeof and Name<T> heuristics; and at
+# the declarations: the cast look-ahead).  The model's identifier classes are id_upper / id_type (Model.v).
+LOWER_FANCY = ["x_1", "_y", "aB", "i18n", "int_x", "sizeofx", "newt", "n0"]          # lower-case initial, no type
+UPPER = ["N", "M", "LIMIT", "Nx", "B2", "X_1", "Zz"]                                   # upper-case initial, no type
+TYPE_NAMES = ["Point", "node", "Len", "len_t", "Color", "mode", "Shape"]               # declared by PRELUDE (= ocaml/c02_driver.ml type_names)
+KW_TYPES = ["int", "long", "short", "tiny", "float", "double", "bool", "string", "char", "void"]
+# every harness program starts with these declarations: two structs, two typedefs, two enums, an interface
+PRELUDE = ("struct Point { int x; int y; };\nstruct node { int v; };\ntypedef int Len;\ntypedef int len_t;\n"
+           "enum Color { RED, GREEN };\nenum mode { OFF, ON };\ninterface Shape { int area(); };\n")
 BINOPS = ["||", "&&", "|", "^", "&", "==", "!=", "<", "<=", ">", ">=", "<<", ">>", "+", "-", "*", "/", "%"]
 UNOPS = ["!", "-", "~"]
 UNOPS_PTR = ["&", "*"]
@@ -71,6 +80,10 @@ def sx(t):
         return "(%s %s %s)" % (k, sx(t[1]), t[2])
     if k == "C":
         return "(C %s%s)" % (t[1], "".join(" " + sx(a) for a in t[2]))
+    if k == "MC":      # ("MC", "." | "->", receiver, member, [args])
+        return "(MC %s %s %s%s)" % (t[1], sx(t[2]), t[3], "".join(" " + sx(a) for a in t[4]))
+    if k == "K":       # ("K", "int**", operand): cast to a keyword type
+        return "(K %s %s)" % (t[1], sx(t[2]))
     if k == "T":
         return "(T %s %s %s)" % (sx(t[1]), sx(t[2]), sx(t[3]))
     if k == "S":
@@ -110,6 +123,17 @@ def unsx(s):
             while toks[pos[0]] != ")":
                 args.append(one())
             v = ("C", f, args)
+        elif k == "MC":
+            o = toks[pos[0]]; pos[0] += 1
+            a = one()
+            m = toks[pos[0]]; pos[0] += 1
+            args = []
+            while toks[pos[0]] != ")":
+                args.append(one())
+            v = ("MC", o, a, m, args)
+        elif k == "K":
+            ty = toks[pos[0]]; pos[0] += 1
+            v = ("K", ty, one())
         elif k == "T":
             v = ("T", one(), one(), one())
         elif k == "S":
@@ -131,7 +155,7 @@ def children(t):
         return [1]
     if k == "B":
         return [2, 3]
-    if k in ("U", "PRE", "POST"):
+    if k in ("U", "PRE", "POST", "K", "MC"):
         return [2]
     if k == "I":
         return [1, 2]
@@ -144,20 +168,31 @@ def children(t):
     return []
 
 
+ARGS_AT = {"C": 2, "MC": 4}      # index of the argument list of a call node
+
+
+def args_of(t):
+    return t[ARGS_AT[t[0]]] if t[0] in ARGS_AT else []
+
+
+def with_args(t, args):
+    l = list(t)
+    l[ARGS_AT[t[0]]] = list(args)
+    return tuple(l)
+
+
 def positions(t, path=()):
     """all sub-tree positions (paths); call arguments are addressed as ('arg', i)"""
     yield path
-    if t[0] == "C":
-        for i, a in enumerate(t[2]):
-            yield from positions(a, path + (("arg", i),))
-    else:
-        for c in children(t):
-            yield from positions(t[c], path + (c,))
+    for c in children(t):
+        yield from positions(t[c], path + (c,))
+    for i, a in enumerate(args_of(t)):
+        yield from positions(a, path + (("arg", i),))
 
 
 def get_at(t, path):
     for p in path:
-        t = t[2][p[1]] if isinstance(p, tuple) else t[p]
+        t = args_of(t)[p[1]] if isinstance(p, tuple) else t[p]
     return t
 
 
@@ -166,9 +201,9 @@ def replace_at(t, path, fn):
         return fn(t)
     p = path[0]
     if isinstance(p, tuple):
-        args = list(t[2])
+        args = list(args_of(t))
         args[p[1]] = replace_at(args[p[1]], path[1:], fn)
-        return (t[0], t[1], args)
+        return with_args(t, args)
     l = list(t)
     l[p] = replace_at(l[p], path[1:], fn)
     return tuple(l)
@@ -178,16 +213,27 @@ def strip(t):
     k = t[0]
     if k == "P":
         return strip(t[1])
-    if k == "C":
-        return ("C", t[1], [strip(a) for a in t[2]])
     l = list(t)
     for c in children(t):
         l[c] = strip(t[c])
-    return tuple(l)
+    t = tuple(l)
+    if k in ARGS_AT:
+        t = with_args(t, [strip(a) for a in args_of(t)])
+    return t
 
 
 def size(t):
-    return 1 + sum(size(get_at(t, (c,))) for c in children(t)) + (sum(size(a) for a in t[2]) if t[0] == "C" else 0)
+    return 1 + sum(size(t[c]) for c in children(t)) + sum(size(a) for a in args_of(t))
+
+
+def idents(t):
+    """variable names of a tree, in order of first occurrence"""
+    out = []
+    for p in positions(t):
+        n = get_at(t, p)
+        if n[0] == "V" and n[1] not in out:
+            out.append(n[1])
+    return out
 
 
 def is_target(t):
@@ -195,17 +241,27 @@ def is_target(t):
     return t[0] in ("V", "I", "M", "A") or (t[0] == "U" and t[1] == "*")
 
 
-def rand_tree(rng, depth, kinds, leaf_num=0.35):
+def rand_ident(rng, fancy):
+    """an identifier; fancy = probability of a spelling outside a..e (other lower-case shapes, upper-case
+    initial, name of a declared type)"""
+    if rng.random() >= fancy:
+        return rng.choice(VARS)
+    r = rng.random()
+    return rng.choice(LOWER_FANCY if r < 0.3 else UPPER if r < 0.75 else TYPE_NAMES)
+
+
+def rand_tree(rng, depth, kinds, leaf_num=0.35, fancy=0.0):
     """random source tree; kinds: set of constructs allowed among
-    bin un ptr incdec idx mem call tern asg par"""
+    bin un ptr incdec idx mem call mcall cast sizeof tern asg par"""
     if depth <= 0 or rng.random() < 0.12:
         if rng.random() < leaf_num:
             return ("N", rng.choice([0, 1, 2, 3, 5, 7, 10]))
-        return ("V", rng.choice(VARS))
-    opts = [("bin", 10), ("un", 3), ("ptr", 1), ("incdec", 2), ("idx", 2), ("mem", 1), ("call", 1.5), ("tern", 2), ("asg", 1.5), ("par", 2)]
+        return ("V", rand_ident(rng, fancy))
+    opts = [("bin", 10), ("un", 3), ("ptr", 1), ("incdec", 2), ("idx", 2), ("mem", 1), ("call", 1.5), ("mcall", 1), ("cast", 1),
+            ("sizeof", 0.4), ("tern", 2), ("asg", 1.5), ("par", 2)]
     opts = [(k, w) for k, w in opts if k in kinds]
     k = rng.choices([o[0] for o in opts], [o[1] for o in opts])[0]
-    sub = lambda: rand_tree(rng, depth - 1, kinds, leaf_num)   # noqa: E731
+    sub = lambda: rand_tree(rng, depth - 1, kinds, leaf_num, fancy)   # noqa: E731
     if k == "bin":
         return ("B", rng.choice(BINOPS), sub(), sub())
     if k == "un":
@@ -219,18 +275,24 @@ def rand_tree(rng, depth, kinds, leaf_num=0.35):
     if k == "mem":
         return (rng.choice(["M", "A"]), sub(), rng.choice(["m", "n"]))
     if k == "call":
-        return ("C", rng.choice(["f", "g"]), [sub() for _ in range(rng.choice([0, 1, 1, 2, 2, 3]))])
+        return ("C", rng.choice(["f", "g"] + (["F", "Gx"] if rng.random() < fancy else [])), [sub() for _ in range(rng.choice([0, 1, 1, 2, 2, 3]))])
+    if k == "mcall":
+        return ("MC", rng.choice([".", "->"]), sub(), rng.choice(["m", "n", "get", "Mx"]), [sub() for _ in range(rng.choice([0, 1, 1, 2]))])
+    if k == "cast":
+        return ("K", rng.choice(["int", "int", "long", "int*", "char", "double", "bool", "void*", "short**", "tiny", "float", "string"]), sub())
+    if k == "sizeof":
+        return ("C", "sizeof", [sub()])
     if k == "tern":
         return ("T", sub(), sub(), sub())
     if k == "asg":
         for _ in range(8):
-            l = rand_tree(rng, min(depth - 1, 2), kinds & {"idx", "mem", "ptr", "par"}, 0.0)
+            l = rand_tree(rng, min(depth - 1, 2), kinds & {"idx", "mem", "ptr", "par"}, 0.0, fancy)
             if is_target(l):
                 op = rng.choice(ASGOPS)
                 if strip(l)[0] == "U" and op != "=":
                     op = "="
                 return ("S", op, l, sub())
-        return ("S", rng.choice(ASGOPS), ("V", rng.choice(VARS)), sub())
+        return ("S", rng.choice(ASGOPS), ("V", rand_ident(rng, fancy)), sub())
     if k == "par":
         return ("P", sub())
     raise ValueError(k)
@@ -238,14 +300,12 @@ def rand_tree(rng, depth, kinds, leaf_num=0.35):
 
 def add_random_pars(rng, t, p):
     """wrap each sub-tree with probability p in an explicit pair of parentheses"""
-    k = t[0]
-    if k == "C":
-        t = ("C", t[1], [add_random_pars(rng, a, p) for a in t[2]])
-    else:
-        l = list(t)
-        for c in children(t):
-            l[c] = add_random_pars(rng, t[c], p)
-        t = tuple(l)
+    l = list(t)
+    for c in children(t):
+        l[c] = add_random_pars(rng, t[c], p)
+    t = tuple(l)
+    if t[0] in ARGS_AT:
+        t = with_args(t, [add_random_pars(rng, a, p) for a in args_of(t)])
     return ("P", t) if rng.random() < p else t
 
 
@@ -270,7 +330,7 @@ def model_tree(trees, table="pinned"):
             raise RuntimeError("driver rejected a tree: " + l)
         text, flags, dump = l.split(" @@@ ")
         fl = dict(x.split("=") for x in flags.split())
-        res.append({"text": text, "wf": fl["wf"] == "1", "safe": fl["safe"] == "1", "nogtlp": fl["nogtlp"] == "1",
+        res.append({"text": text, "wf": fl["wf"] == "1", "safe": fl["safe"] == "1", "synsafe": fl["synsafe"] == "1",
                     "rt": fl["rt"] == "1", "dump": dump})
     return res
 
@@ -279,9 +339,14 @@ def model_parse(texts, ctx=None):
     return model_lines("parse", [t if ctx is None else t + " @@ " + ctx for t in texts])
 
 
+def as_env(vs):
+    """operand values: a dict name -> int, or (legacy) a list for a..e"""
+    return vs if isinstance(vs, dict) else dict(zip(VARS, vs))
+
+
 def model_eval(cases):
-    """cases: list of (values list for a..e, tree) -> list of int or None"""
-    out = model_lines("eval", ["%s | %s" % (",".join(map(str, vs)), sx(t)) for vs, t in cases])
+    """cases: list of (values: dict name -> int (or list for a..e), tree) -> list of int or None"""
+    out = model_lines("eval", ["%s | %s" % (",".join("%s=%d" % kv for kv in as_env(vs).items()), sx(t)) for vs, t in cases])
     return [None if x == "NONE" or x.startswith("BAD") else int(x) for x in out]
 
 
@@ -330,7 +395,7 @@ def split_nodes(s):
 def impl_dump_program(impl_dir, exprs, timeout=20):
     """one program `void main(){ println(E1); ... }`; returns list of canonical dumps (None for all if the
     program does not parse) and the raw (rc, stderr)"""
-    src = "void main() {\n" + "".join("  println(%s);\n" % e for e in exprs) + "}\n"
+    src = PRELUDE + "void main() {\n" + "".join("  println(%s);\n" % e for e in exprs) + "}\n"
     rc, o, e = common.run_cb(impl_dir, src, timeout=timeout, env={"CB_VERIF_DUMP_AST": "1", "CB_VERIF_PARSE_ONLY": "1"})
     line = None
     for l in e.split("\n"):
@@ -470,9 +535,74 @@ def lookahead_cases():
     return out
 
 
+IDENT_SPECS = ["a", "x_1", "_y", "sizeofx", "N", "LIMIT", "B2", "Zz", "Point", "len_t", "Color", "mode"]
+
+
+def ident_cases():
+    """the blind spot seeded change C02-1 revealed: an identifier of EVERY spelling class (plain, other lower-case
+    shapes, upper-case initial, name of a declared struct / typedef / enum), bare and alone in one or two pairs of
+    redundant parentheses, in EVERY operand position: both sides of all 18 binary operators, under the 5 prefix
+    operators and ++/--, as head / index / argument / receiver of every postfix form, in sizeof, under a cast, in
+    all three ?: positions, on both sides of = and op=, and before every token that can also start a unary
+    expression"""
+    x, y = ("V", "b"), ("V", "c")
+    out = []
+    for s_ in IDENT_SPECS:
+        v = ("V", s_)
+        for depth, w in enumerate((v, ("P", v), ("P", ("P", v)))):
+            for o in BINOPS:
+                out += [("B", o, w, x), ("B", o, x, w)]
+                if depth == 1:
+                    out += [("B", o, w, ("U", "-", x)), ("B", o, ("N", 100), ("B", o, w, ("N", 1)))]
+            for u in UNOPS + UNOPS_PTR:
+                out += [("U", u, w), ("B", "-", ("U", u, w), ("N", 1))]
+            out += [("POST", "++", w), ("PRE", "--", w), ("B", "-", ("POST", "--", w), x), ("I", w, x), ("I", x, w),
+                    ("M", w, "m"), ("A", w, "n"), ("MC", ".", w, "get", [x]), ("MC", "->", x, "get", [w]),
+                    ("C", "f", [w]), ("C", "f", [w, x]), ("C", "f", [x, w]), ("C", "sizeof", [w]),
+                    ("B", "*", ("C", "sizeof", [w]), ("N", 2)),
+                    ("T", w, x, y), ("T", x, w, y), ("T", x, y, w),
+                    ("S", "=", w, x), ("S", "+=", w, x), ("S", "=", x, w), ("S", "-=", x, w),
+                    ("K", "int", w), ("B", "*", ("K", "int", w), x), ("K", "long*", ("U", "&", w)),
+                    ("B", "-", ("B", "*", ("N", 3), w), ("B", "*", ("N", 2), ("N", 4)))]
+    return out
+
+
+LIT_SPELL = {0: ["false", "0.0", "00", "0e0"], 1: ["true", "1.0", "1.5", "01"], 2: ["2.0", "2.5f", "02"], 3: ["3e0", "3.9"],
+             5: ["5.0f", "05"], 7: ["7.25", "07"], 10: ["10.0", "1e1", "010", "10f"]}
+
+
+def respell_literals(rng, text):
+    """the same expression with some integer literals written as bool / float / zero-padded literals whose AST
+    node carries the same int value (the lexer and the NUMBER branch of parsePrimary, not modelled: the model reads
+    the plain decimal text)"""
+    toks = text.split()
+    for i, t in enumerate(toks):
+        if t.isdigit() and int(t) in LIT_SPELL and rng.random() < 0.6 and (i == 0 or toks[i - 1] not in (".", "->")):
+            toks[i] = rng.choice(LIT_SPELL[int(t)])
+    return " ".join(toks)
+
+
+_HZ_UPPER = re.compile(r"(?:^| )(?<!\. )(?<!-> )[A-Z]\w* <(?: |$)")
+_HZ_SIZEOF = re.compile(r"(?:^| )sizeof \( [A-Z]")
+_HZ_TYPE = re.compile(r"(?:^|[^\w)\]] )\( (?:%s) [*&)\[]" % "|".join(TYPE_NAMES))
+
+
+def hazard_kind(text):
+    """which of the four known heuristics of parsePrimary an unsafe text trips (for the avoidance counters; the
+    decision itself is the model's exact safeb)"""
+    if _HZ_UPPER.search(text):
+        return "upper-ident-lt"
+    if _HZ_SIZEOF.search(text):
+        return "sizeof-upper-ident"
+    if _HZ_TYPE.search(text):
+        return "type-named-variable-cast"
+    return "generic-lookahead"
+
+
 def mutate_tokens(rng, toks):
     """one or two token-level edits (malformed stream)"""
-    pool = BINOPS + ["!", "~", "++", "--", "(", ")", "[", "]", ".", "->", "?", ":", ",", "=", "+=", "a", "b", "1", "f"]
+    pool = BINOPS + ["!", "~", "++", "--", "(", ")", "[", "]", ".", "->", "?", ":", ",", "=", "+=", "a", "b", "1", "f",
+                     "N", "M", "Point", "len_t", "x_1", "int", "long", "sizeof", "(", ")", "<", ">"]
     toks = list(toks)
     for _ in range(rng.choice([1, 1, 2])):
         r = rng.random()
@@ -492,12 +622,12 @@ def mutate_tokens(rng, toks):
     return toks
 
 
-_OUTSIDE = re.compile(r"(?:\.|->) [a-z_]\w* \(|\) \(")
+_OUTSIDE = re.compile(r"\) \(|\( (?:%s) \(" % "|".join(KW_TYPES + TYPE_NAMES))
 
 
 def outside_fragment(text):
-    """token shapes the model does not cover (method call, chained call / call through a parenthesised
-    callee): the malformed stream skips them"""
+    """token shapes the model does not cover: a chained call / a call through a parenthesised callee `) (`, and a
+    function type in a cast `( int (`; the malformed stream skips them (method calls are modelled)"""
     return bool(_OUTSIDE.search(text)) or text.strip() == ""
 
 
@@ -520,17 +650,6 @@ def compact(text):
     return "".join(out)
 
 
-def primary_lbracket(text, safe=True):
-    """array literals are outside the modelled fragment: a `[` in operand position"""
-    toks = text.split()
-    for i, t in enumerate(toks):
-        if t == "[":
-            prev = toks[i - 1] if i else None
-            if prev is None or not (re.match(r"[a-z_0-9]", prev) or prev in (")", "]")):
-                return True
-    return False
-
-
 def triple_cases():
     """thorough: all operator triples in the five tree shapes over four operands"""
     a, b, c, d = [("V", x) for x in VARS[:4]]
@@ -545,33 +664,68 @@ def triple_cases():
 
 
 # ------------------------------------------------------------------ evaluation (the property's own observable)
-FUNS = "int f(int x, int y) { return x * 3 + y; }\nint g(int x) { return 7 - x; }\n"
+FUNS = PRELUDE + "int f(int x, int y) { return x * 3 + y; }\nint g(int x) { return 7 - x; }\nint F(int x) { return x * 2 + 1; }\nint idx_(int x) { return x & 3; }\n"
 EVAL_KINDS = {"bin", "un", "tern", "par"}
 VALS = [0, 1, 2, 3, 5, 7, -1, -2, -4, 8]
 
 
-def rand_eval_tree(rng, depth, calls=True):
+def rand_eval_tree(rng, depth, calls=True, fancy=0.0):
     if depth <= 0 or rng.random() < 0.1:
         if rng.random() < 0.3:
             return ("N", rng.choice([0, 1, 2, 3, 5, 7, 10]))
-        return ("V", rng.choice(VARS))
+        return ("V", rand_ident(rng, fancy))
     r = rng.random()
-    sub = lambda: rand_eval_tree(rng, depth - 1, calls)   # noqa: E731
-    if r < 0.62:
+    sub = lambda: rand_eval_tree(rng, depth - 1, calls, fancy)   # noqa: E731
+    if r < 0.60:
         return ("B", rng.choice(BINOPS), sub(), sub())
-    if r < 0.78:
+    if r < 0.75:
         return ("U", rng.choice(UNOPS), sub())
-    if r < 0.90:
+    if r < 0.86:
         return ("T", sub(), sub(), sub())
-    if calls and r < 0.96:
-        return rng.choice([("C", "g", [sub()]), ("C", "f", [sub(), sub()])])
+    if calls and r < 0.92:
+        return rng.choice([("C", "g", [sub()]), ("C", "f", [sub(), sub()]), ("C", "F", [sub()])])
+    if calls and r < 0.955:
+        return ("K", "int", sub())
+    if calls and r < 0.97:
+        # the operand has type int (sizeof of a comparison / logical result is 1: not what the model's oracle knows)
+        return ("C", "sizeof", [("B", rng.choice(["+", "-", "*", "&", "|", "^"]), sub(), sub()) if rng.random() < 0.7 else ("V", rand_ident(rng, fancy))])
     return ("P", sub())
 
 
+def ternary_typed_branch(t):
+    """an evaluator quirk outside C02 (the three texts of a case have the same AST and print the same): a ?: whose
+    selected branch is directly a cast or sizeof node evaluates to 0; for such trees the model value is no oracle"""
+    for s_ in subtrees(strip(t)):
+        if s_[0] == "T" and any(b[0] == "K" or (b[0] == "C" and b[1] == "sizeof") for b in (s_[2], s_[3])):
+            return True
+    return False
+
+
+def ident_eval_cases():
+    """value level of ident_cases: (s) o x, x o (s), (s) o - x, 100 o (s) o 1, 3 * (s) - 2 * 4 and the prefix / call /
+    cast / ?: positions for every identifier spelling; the given text keeps the redundant parentheses"""
+    x, y = ("V", "b"), ("V", "c")
+    out = []
+    for s_ in IDENT_SPECS:
+        w = ("P", ("V", s_))
+        for o in BINOPS:
+            out += [("B", o, w, x), ("B", o, x, w), ("B", o, w, ("U", "-", x)), ("B", o, ("N", 100), ("B", o, w, ("N", 1))),
+                    ("B", o, ("P", w), ("N", 1))]
+        for u in UNOPS:
+            out += [("U", u, w), ("B", "-", ("U", u, w), ("N", 1))]
+        out += [("C", "g", [w]), ("C", "f", [w, x]), ("C", "f", [x, w]), ("B", "-", ("C", "sizeof", [w]), ("N", 1)),
+                ("T", w, x, y), ("T", x, w, y), ("T", x, y, w), ("K", "int", w), ("B", "*", ("K", "int", w), x),
+                ("B", "-", ("B", "*", ("N", 3), w), ("B", "*", ("N", 2), ("N", 4))), ("B", "+", ("B", "-", w, ("N", 1)), x)]
+    return out
+
+
 def find_values(rng, trees, alts=(), tries=40, vals=None):
-    """operand values for a..e (brute force in the model) under which every tree in `trees` is defined
-    and, if possible, differs in value from every tree in `alts` (the other groupings)"""
-    cands = [[rng.choice(vals or VALS) for _ in VARS] for _ in range(tries)]
+    """operand values for the identifiers of the trees (brute force in the model) under which every tree in
+    `trees` is defined and, if possible, differs in value from every tree in `alts` (the other groupings)"""
+    names = list(VARS)
+    for t in list(trees) + list(alts):
+        names += [n for n in idents(t) if n not in names]
+    cands = [{n: rng.choice(vals or VALS) for n in names} for _ in range(tries)]
     cases = [(vs, t) for vs in cands for t in list(trees) + list(alts)]
     ev = model_eval(cases)
     n = len(trees) + len(alts)
@@ -588,25 +742,43 @@ def find_values(rng, trees, alts=(), tries=40, vals=None):
     return best     # (number of alternatives told apart, values, expected value) or None
 
 
-def eval_program(cases):
-    """cases: list of (values, [expr text, ...]); prints every text of a case under its values"""
+def decls(vs):
+    return "".join("int %s = %d; " % kv for kv in as_env(vs).items())
+
+
+def eval_program(cases, wrap=None):
+    """cases: list of (values, [expr text, ...]); prints every text of a case under its values (each case in a
+    block of its own that declares the operands: identifiers of any spelling, also names of declared types).
+    wrap: how the value is observed: None = println(E); 'init' = int r = E; println(r);
+    'if' = if (E) println(1) else println(0); 'arg' = println(g(E)); 'index' = println(vv[idx_(E)]) with idx_(x) = x & 3"""
     lines = [FUNS, "void main() {\n"]
-    lines.append("".join("  int %s = 0;\n" % v for v in VARS))
     for vs, texts in cases:
-        lines.append("".join("  %s = %d;\n" % (v, x) for v, x in zip(VARS, vs)))
+        lines.append("  { " + decls(vs) + "\n")
+        if wrap == "index":
+            lines.append("    int[4] vv = [11, 22, 33, 44];\n")
         for t in texts:
-            lines.append("  println(%s);\n" % t)
+            if wrap is None:
+                lines.append("    println(%s);\n" % t)
+            elif wrap == "init":
+                lines.append("    { int r_ = %s; println(r_); }\n" % t)
+            elif wrap == "if":
+                lines.append("    if (%s) { println(1); } else { println(0); }\n" % t)
+            elif wrap == "arg":
+                lines.append("    println(g(%s));\n" % t)
+            elif wrap == "index":
+                lines.append("    println(vv[idx_(%s)]);\n" % t)
+        lines.append("  }\n")
     lines.append("}\n")
     return "".join(lines)
 
 
-def run_eval_cases(impl_dir, cases, chunk=25):
+def run_eval_cases(impl_dir, cases, chunk=25, wrap=None):
     """-> per case: list of output lines (one per text) or ('ERR', rc, stderr)"""
     out = [None] * len(cases)
     chunks = [list(range(i, min(i + chunk, len(cases)))) for i in range(0, len(cases), chunk)]
 
     def run_chunk(ch):
-        rc, o, e = common.run_cb(impl_dir, eval_program([cases[i] for i in ch]))
+        rc, o, e = common.run_cb(impl_dir, eval_program([cases[i] for i in ch], wrap))
         return ch, rc, o, e
 
     retry = []
@@ -623,7 +795,7 @@ def run_eval_cases(impl_dir, cases, chunk=25):
             retry += ch
 
     def run_one(i):
-        rc, o, e = common.run_cb(impl_dir, eval_program([cases[i]]))
+        rc, o, e = common.run_cb(impl_dir, eval_program([cases[i]], wrap))
         ls = o.split("\n")[:-1] if o.endswith("\n") else o.split("\n")
         if rc == 0 and len(ls) == len(cases[i][1]):
             return i, ls
@@ -637,12 +809,12 @@ def run_eval_cases(impl_dir, cases, chunk=25):
 def effect_program(cases):
     """cases: list of (values, [statement-or-expression text...]) with side effects (++/--, op=):
     the variables are reset before every text and printed after it"""
-    lines = [FUNS, "void main() {\n", "".join("  int %s = 0;\n" % v for v in VARS)]
+    lines = [FUNS, "void main() {\n"]
     for vs, texts in cases:
         for t in texts:
-            lines.append("".join("  %s = %d;\n" % (v, x) for v, x in zip(VARS, vs)))
-            lines.append("  %s\n" % t)
-            lines.append("  println(%s);\n" % ", ".join(VARS))
+            lines.append("  { " + decls(vs) + "\n")
+            lines.append("    %s\n" % t)
+            lines.append("    println(%s);\n  }\n" % ", ".join(as_env(vs)))
     lines.append("}\n")
     return "".join(lines)
 
@@ -650,12 +822,10 @@ def effect_program(cases):
 # ------------------------------------------------------------------ shrinking
 def subtrees(t):
     yield t
-    if t[0] == "C":
-        for a in t[2]:
-            yield from subtrees(a)
-    else:
-        for c in children(t):
-            yield from subtrees(t[c])
+    for c in children(t):
+        yield from subtrees(t[c])
+    for a in args_of(t):
+        yield from subtrees(a)
 
 
 def shrink_candidates(t):
@@ -671,7 +841,7 @@ def shrink_candidates(t):
         add(s)
     for path in list(positions(t)):
         node = get_at(t, path)
-        kids = node[2] if node[0] == "C" else [node[c] for c in children(node)]
+        kids = [node[c] for c in children(node)] + list(args_of(node))
         for k in kids:
             try:
                 add(replace_at(t, path, lambda _s, k=k: k))
@@ -690,7 +860,7 @@ def tree_disagrees(impl_dir, trees):
     res = []
     for t, m, p_, i in zip(trees, mt, mp, im):
         v = model_verdict(p_)
-        if v == "SKIP" or v == i or (primary_lbracket(m["text"], m["safe"]) and v == "ERR"):
+        if v == "SKIP" or v == i or (v == "ERR" and "ARRAY_LITERAL" in str(i)):
             res.append(None)
         else:
             res.append({"text": m["text"], "model": p_, "impl": i, "wf": m["wf"], "safe": m["safe"], "rt": m["rt"]})
@@ -724,7 +894,9 @@ def evaluable(t):
     if k == "T":
         return all(evaluable(t[i]) for i in (1, 2, 3))
     if k == "C":
-        return ((t[1] == "g" and len(t[2]) == 1) or (t[1] == "f" and len(t[2]) == 2)) and all(evaluable(a) for a in t[2])
+        return ((t[1] in ("g", "F", "sizeof") and len(t[2]) == 1) or (t[1] == "f" and len(t[2]) == 2)) and all(evaluable(a) for a in t[2])
+    if k == "K":
+        return t[1] == "int" and evaluable(t[2])
     return False
 
 
@@ -743,7 +915,8 @@ def property_oracle(impl_dir, seed, t):
     payload = {"texts": dict(forms), "impl_ast": dict(zip([x[0] for x in forms], d))}
     if evaluable(t0) and all(m["safe"] for m in mt):
         rng = rng_for(seed, "c02-oracle", sx(t0))
-        cands = [[rng.choice(VALS) for _ in VARS] for _ in range(60)]
+        names = list(VARS) + [n for n in idents(t0) if n not in VARS]
+        cands = [{n: rng.choice(VALS) for n in names} for _ in range(60)]
         ev = model_eval([(vs, t0) for vs in cands])
         cases = [(vs, texts) for vs, v in zip(cands, ev) if v is not None][:30]
         exp = [v for v in ev if v is not None][:30]
@@ -754,17 +927,17 @@ def property_oracle(impl_dir, seed, t):
                 rs = [common.run_cb(impl_dir, eval_program([(vs, [tx])])) for tx in texts]
                 ss = [(r[0], r[1].strip()) for r in rs]
                 if len(set(ss)) > 1:
-                    payload.update({"values": dict(zip(VARS, vs)), "value_of_the_tree": want,
+                    payload.update({"values": as_env(vs), "value_of_the_tree": want,
                                     "alone": {n: {"rc": r[0], "stdout": r[1], "stderr": r[2][:300]} for (n, _), r in zip(forms, rs)},
                                     "program": eval_program([(vs, texts)])})
                     return True, "; ".join("println(%s) gives exit %s output %r" % (tx, x[0], x[1]) for tx, x in zip(texts, ss)) + \
-                        " with %s" % dict(zip(VARS, vs)), payload
+                        " with %s" % as_env(vs), payload
         for (vs, _), o, want in zip(cases, outs, exp):
             if isinstance(o, list) and len(set(o)) > 1:
-                payload.update({"values": dict(zip(VARS, vs)), "printed": dict(zip([x[0] for x in forms], o)),
+                payload.update({"values": as_env(vs), "printed": dict(zip([x[0] for x in forms], o)),
                                 "value_of_the_tree": want, "program": eval_program([(vs, texts)])})
                 return True, "; ".join("println(%s) prints %s" % (tx, x) for tx, x in zip(texts, o)) + \
-                    " with %s" % dict(zip(VARS, vs)), payload
+                    " with %s" % as_env(vs), payload
     if len(set(d)) > 1:
         return True, "the parser builds different ASTs for " + " / ".join("`%s`" % tx for tx in texts), payload
     return False, "println and AST agree for the given, minimal and fully parenthesised text on this input", payload
@@ -815,7 +988,8 @@ def run(rep):
     n_eval = 0
     distinct = set()
     nontrivial = set()
-    avoided = {"generic-lookahead": 0, "outside-fragment": 0}
+    avoided = {"generic-lookahead": 0, "upper-ident-lt": 0, "sizeof-upper-ident": 0, "type-named-variable-cast": 0,
+               "outside-fragment": 0}
     samples = []
 
     # which operator pairs are ordered differently by the current C++ table and the pinned table
@@ -862,15 +1036,19 @@ def run(rep):
         trees.append(t); origin.append("lookahead-boundary")
     for k, t in enumerate(nesting_cases()):
         trees.append(add_random_pars(rng_for(seed, "c02-nestred", k), t, 0.35)); origin.append("nesting-redundant")
+    for t in ident_cases():          # identifier spellings x parenthesisation x operand position (exhaustive)
+        trees.append(t); origin.append("ident-spelling")
+    n_ident = len(ident_cases())
     if not quick:
         for t in triple_cases():
             trees.append(t); origin.append("triple-min")
     n_rand = 4000 if quick else 60000
-    all_kinds = {"bin", "un", "ptr", "incdec", "idx", "mem", "call", "tern", "asg", "par"}
+    all_kinds = {"bin", "un", "ptr", "incdec", "idx", "mem", "call", "mcall", "cast", "sizeof", "tern", "asg", "par"}
     for k in range(n_rand):
         rng = rng_for(seed, "c02-tree", k)
         depth = rng.choice([2, 3, 4, 5] if quick else [3, 4, 5, 6])
-        t = rand_tree(rng, depth, all_kinds if rng.random() < 0.7 else {"bin", "un", "tern", "par", "incdec"})
+        t = rand_tree(rng, depth, all_kinds if rng.random() < 0.7 else {"bin", "un", "tern", "par", "incdec", "cast"},
+                      fancy=rng.choice([0.0, 0.0, 0.25, 0.6]))
         r = rng.random()
         if r < 0.35:
             t = strip(t); o = "random-min"
@@ -885,13 +1063,15 @@ def run(rep):
     mt = model_tree(trees)
     texts = [m["text"] for m in mt]
     mp = model_parse(texts)
-    im = impl_dumps(impl, texts, [True] * len(texts))      # the look-ahead stops at ) ; since 9bd33cd: statements are independent
+    # texts the model rejects are parsed one per program (a rejected println ends the parse of the whole program);
+    # the look-ahead stops at ) ; since 9bd33cd: the statements of a program are independent
+    im = impl_dumps(impl, texts, [model_verdict(p_) not in ("ERR", "SKIP") for p_ in mp])
     rt_fail = []
     for t, o, m, p_, i in zip(trees, origin, mt, mp, im):
         hist[o] = hist.get(o, 0) + 1
         n_eval += 1
         if not m["safe"]:
-            avoided["generic-lookahead"] += 1     # `ident < ident > (`: excluded from the round-trip claim, ASTs still compared
+            avoided[hazard_kind(m["text"])] += 1     # excluded from the round-trip claim, the ASTs are still compared
         if m["wf"] and m["safe"] and not m["rt"]:
             rt_fail.append((t, m["text"], p_))
         v = model_verdict(p_)
@@ -902,7 +1082,7 @@ def run(rep):
             if any(x in m["text"] for x in BINOPS + ["?", "=", "++", "--", "[", "."]):
                 nontrivial.add(m["text"])
         if v != i:
-            if primary_lbracket(m["text"], m["safe"]) and v == "ERR":
+            if v == "ERR" and "ARRAY_LITERAL" in str(i):      # array literals are outside the modelled fragment
                 avoided["outside-fragment"] += 1
                 continue
             violations.append(("tree", t, {"origin": o, "text": m["text"], "model": p_, "impl": i, "safe": m["safe"]}))
@@ -931,6 +1111,23 @@ def run(rep):
     if ctexts:
         samples.append({"origin": "compact-spelling", "text": ctexts[len(ctexts) // 2], "same_ast_as": texts[sel[len(ctexts) // 2]]})
 
+    # ---------------- (2c) literal spellings: the same expression with integer literals written as bool / float /
+    # zero-padded literals of the same int value must give the same AST (NUMBER / TRUE / FALSE branches of parsePrimary)
+    lsel = [k for k in sel if mt[k]["safe"] and re.search(r"(?:^| )\d+(?: |$)", texts[k])][:(600 if quick else 6000)]
+    ltexts = [respell_literals(rng_for(seed, "c02-lit", k), texts[k]) for k in lsel]
+    lim = impl_dumps(impl, ltexts, [True] * len(ltexts))
+    n_lit = 0
+    for k, lt, li in zip(lsel, ltexts, lim):
+        if lt == texts[k]:
+            continue
+        n_lit += 1
+        if li != im[k]:
+            violations.append(("text", lt, {"origin": "literal-spelling", "text": lt, "model": "same AST as `%s`: %s" % (texts[k], im[k]), "impl": li}))
+    hist["literal-spelling"] = n_lit
+    n_eval += n_lit
+    if ltexts:
+        samples.append({"origin": "literal-spelling", "text": ltexts[len(ltexts) // 2], "same_ast_as": texts[lsel[len(ltexts) // 2]]})
+
     mark("compact")
     # ---------------- (3) malformed token streams (one program each)
     n_mal = 2500 if quick else 25000
@@ -946,7 +1143,7 @@ def run(rep):
         mtexts.append(s)
     mmp = model_parse(mtexts)
     msafe = model_lines("safe", mtexts)
-    mim = impl_dumps(impl, mtexts, [False] * len(mtexts))
+    mim = impl_dumps(impl, mtexts, [model_verdict(p_) not in ("ERR", "SKIP") for p_ in mmp], batch=40)
     mal_ok = 0
     for s, p_, i, sf in zip(mtexts, mmp, mim, msafe):
         hist["malformed"] = hist.get("malformed", 0) + 1
@@ -959,7 +1156,7 @@ def run(rep):
         if s not in distinct:
             distinct.add(s); nontrivial.add(s)
         if v != i:
-            if primary_lbracket(s, sf == "1"):
+            if v == "ERR" and "ARRAY_LITERAL" in str(i):
                 avoided["outside-fragment"] += 1
                 continue
             violations.append(("text", s, {"origin": "malformed", "text": s, "model": p_, "impl": i}))
@@ -985,36 +1182,42 @@ def run(rep):
             if best[0] == 0:
                 undisc += 1
             ev_meta.append({"tree": t, "values": best[1], "expect": best[2], "origin": "pair-eval"})
+    for k, t in enumerate(ident_eval_cases()):      # identifier spellings in redundant parentheses (exhaustive family)
+        rng = rng_for(seed, "c02-identval", k)
+        best = find_values(rng, [t], (), tries=10, vals=[1, 2, 3, 5, 7, -1, -2, 8])
+        if best is None:
+            continue
+        ev_meta.append({"tree": t, "values": best[1], "expect": best[2], "origin": "ident-eval", "red": t})
     n_re = 1500 if quick else 20000
     for k in range(n_re):
         rng = rng_for(seed, "c02-evtree", k)
-        t = rand_eval_tree(rng, rng.choice([2, 3, 4, 5] if quick else [3, 4, 5, 6]))
+        t = rand_eval_tree(rng, rng.choice([2, 3, 4, 5] if quick else [3, 4, 5, 6]), fancy=rng.choice([0.0, 0.0, 0.3, 0.6]))
         best = find_values(rng, [t], (), tries=12)
         if best is None:
             continue
         ev_meta.append({"tree": t, "values": best[1], "expect": best[2], "origin": "random-eval"})
-    # texts: minimal, full, one random redundant placement
+    # texts: minimal, full, one redundant placement (random, or the given one)
     mins = [strip(m["tree"]) for m in ev_meta]
     fulls_sx = model_full(mins)
     reds = []
     for k, m in enumerate(ev_meta):
         rng = rng_for(seed, "c02-evred", k)
-        reds.append(add_random_pars(rng, mins[k], 0.3))
+        reds.append(m["red"] if "red" in m else add_random_pars(rng, mins[k], 0.3))
     mt_min, mt_full, mt_red = model_tree(mins), model_tree(fulls_sx), model_tree(reds)
     for m, x, y, z in zip(ev_meta, mt_min, mt_full, mt_red):
-        # avoidance of what is left of C02-generic-lookahead: `ident < ident > (` (the model's safeb, exact)
+        # avoidance of the four known heuristics of parsePrimary (the model's safeb, exact)
         ok = x["safe"] and y["safe"] and z["safe"]
         m["texts"] = [x["text"], y["text"], z["text"]]
         m["safe"] = ok
         if not ok:
-            avoided["generic-lookahead"] += 1
+            avoided[hazard_kind(next(q["text"] for q in (x, y, z) if not q["safe"]))] += 1
     ev_meta = [m for m in ev_meta if m["safe"]]
     outs = run_eval_cases(impl, [(m["values"], m["texts"]) for m in ev_meta])
     ev_distinct_values = set()
     for m, o in zip(ev_meta, outs):
         hist[m["origin"]] = hist.get(m["origin"], 0) + 1
         n_eval += 1
-        key = (m["texts"][0], tuple(m["values"]))
+        key = (m["texts"][2], tuple(sorted(as_env(m["values"]).items())))
         if key not in distinct:
             distinct.add(key); nontrivial.add(key)
         if not isinstance(o, list):
@@ -1022,7 +1225,10 @@ def run(rep):
                                                     "impl": list(o), "expect": m["expect"]}))
             continue
         ev_distinct_values.add(o[0])
-        if not (o[0] == o[1] == o[2] == str(m["expect"])):
+        if ternary_typed_branch(m["tree"]):
+            m["no_oracle"] = True
+            avoided["evaluator-ternary-of-cast (not C02)"] = avoided.get("evaluator-ternary-of-cast (not C02)", 0) + 1
+        if not (o[0] == o[1] == o[2] and (m.get("no_oracle") or o[0] == str(m["expect"]))):
             violations.append(("eval", m["tree"], {"origin": m["origin"], "texts": m["texts"], "values": m["values"],
                                                     "impl": o, "expect": m["expect"]}))
     rep.coverage["evaluation_runs"] = len(ev_meta)
@@ -1030,8 +1236,32 @@ def run(rep):
     rep.coverage["distinct_printed_values"] = len(ev_distinct_values)
     if ev_meta:
         k = len(ev_meta) // 3
-        samples.append({"origin": ev_meta[k]["origin"], "values": dict(zip(VARS, ev_meta[k]["values"])),
+        samples.append({"origin": ev_meta[k]["origin"], "values": as_env(ev_meta[k]["values"]),
                         "println": ev_meta[k]["texts"], "printed": outs[k], "model_value": ev_meta[k]["expect"]})
+        k = next((i for i, m in enumerate(ev_meta) if m["origin"] == "ident-eval" and "( N )" in m["texts"][2]), None)
+        if k is not None:
+            samples.append({"origin": "ident-eval", "values": as_env(ev_meta[k]["values"]),
+                            "println": ev_meta[k]["texts"], "printed": outs[k], "model_value": ev_meta[k]["expect"]})
+
+    # the same value observed in other expression contexts: initialiser, condition, call argument, array index
+    ctx_meta = [m for m in ev_meta if m["origin"] in ("random-eval", "ident-eval") and not m.get("no_oracle")][::(4 if quick else 2)]
+    for wrap in ("init", "if", "arg", "index"):
+        def want(v, wrap=wrap):
+            if wrap == "init":
+                return v
+            if wrap == "if":
+                return 1 if v != 0 else 0
+            if wrap == "arg":
+                return 7 - v if -2147483641 <= v <= 2147483647 else None
+            return [11, 22, 33, 44][v & 3]
+        sel_c = [m for m in ctx_meta if want(m["expect"]) is not None]
+        outs_c = run_eval_cases(impl, [(m["values"], m["texts"]) for m in sel_c], wrap=wrap)
+        for m, o in zip(sel_c, outs_c):
+            hist["context-" + wrap] = hist.get("context-" + wrap, 0) + 1
+            n_eval += 1
+            if not isinstance(o, list) or not (o[0] == o[1] == o[2] == str(want(m["expect"]))):
+                violations.append(("eval", m["tree"], {"origin": "context-" + wrap, "texts": m["texts"], "values": m["values"],
+                                                        "impl": list(o), "expect": want(m["expect"])}))
 
     # side effects: ++/-- inside expressions and op= statements, minimal vs full, same final state
     eff_cases = []
@@ -1044,6 +1274,8 @@ def run(rep):
         if not free:
             continue
         x = rng.choice(free)
+        if rng.random() < 0.3:
+            x = rng.choice(UPPER[:4] + LOWER_FANCY[:4])      # the modified variable under another spelling
         if rng.random() < 0.5:
             inc = (rng.choice(["PRE", "POST"]), rng.choice(["++", "--"]), ("V", x))
             # the value the operand contributes (for the definedness guard evaluated in the model)
@@ -1102,7 +1334,7 @@ def run(rep):
             if l1[:half] != l1[half:]:
                 violations.append(("effect", t, {"origin": "side-effects", "texts": tx, "values": vs, "impl": l1}))
     if eff_run:
-        samples.append({"origin": "side-effects", "values": dict(zip(VARS, eff_run[0][0])), "statements": eff_run[0][1]})
+        samples.append({"origin": "side-effects", "values": as_env(eff_run[0][0]), "statements": eff_run[0][1]})
 
     mark("evaluation")
     # ---------------- (5) disagreements: shrink, property oracle, report
@@ -1182,15 +1414,24 @@ def run(rep):
                 "found by brute force in the model; distinct = distinct text (x operand values); non-trivial = contains an operator",
         "exhaustive": True,
         "exhaustive_space": "all 18x18 ordered pairs of binary operators x both groupings x {minimal, full, redundant pair at each of the 5 positions} "
-                            "(%d trees) + %d unary/postfix/ternary/assignment nestings%s; value level: all 648 pair groupings" % (
-                                n_exh, len(nesting_cases()) * 3, "" if quick else " + all 18^3 operator triples x 5 shapes"),
+                            "(%d trees) + %d unary/postfix/ternary/assignment nestings + %d identifier-spelling trees (%d spellings: plain, "
+                            "other lower-case shapes, upper-case initial, names of declared struct/typedef/enum x {bare, (s), ((s))} x every "
+                            "operand position)%s; value level: all 648 pair groupings + %d identifier-spelling evaluations" % (
+                                n_exh, len(nesting_cases()) * 3, n_ident, len(IDENT_SPECS),
+                                "" if quick else " + all 18^3 operator triples x 5 shapes", len(ident_eval_cases())),
         "input_distribution": hist, "avoided_known_findings": avoided, "samples": samples,
     })
     rep.assumptions += [
         "the lexer is not modelled: expression texts are printed with one blank between tokens; the real lexer is tied in by "
         "re-parsing the compact spelling (a+b*c) of the same token sequences and comparing ASTs",
-        "identifiers are lower-case and name no type; await/try/checked/new/sizeof, casts to keyword types, method calls, "
-        "chained calls and array literals are outside the modelled fragment (the malformed stream skips them)",
+        "identifiers of every spelling class (lower/upper-case initial, underscores, digits, keyword prefixes, names of the "
+        "structs/typedefs/enums/interface every program declares) are generated in every position; modelled besides the operators: "
+        "casts to keyword types and to declared types, sizeof, method calls, the Name<T> heuristic; outside the modelled fragment "
+        "(skipped by the malformed stream): await/try/checked/new/delete, chained calls f(x)(y), calls through a parenthesised "
+        "callee, function types in casts, enum access T::m, array/struct literals, lambdas, string operands",
+        "integer literals are small decimals in the model; bool / float / zero-padded spellings of the same value are tied in by "
+        "an AST comparison (literal-spelling); the evaluation contexts initialiser / if / call argument / array index are "
+        "compared with the model value of the expression",
         "evaluation semantics are observed on the binary only; the model evaluator (int range, C division/shift) is used to pick "
         "operand values and as a third opinion on printed values",
         "fuel: the extracted parse uses enough_fuel; an out-of-fuel answer would be reported as a disagreement (never observed)",
@@ -1216,22 +1457,37 @@ def replay(path):
     c = data["case"]
     common.ensure_model(PROP)
     impl = common.build_impl("plain")
-    if "program" in c:
-        rc, o, e = common.run_cb(impl, c["program"])
-        print("program:\n" + c["program"]); print("rc", rc); print(o); print(e[:500])
-        ls = o.split("\n")[:-1] if o.endswith("\n") else o.split("\n")
-        if "expected" in c:
-            return 0 if rc == 0 and ls == c["expected"] else 1
-        return 0 if rc == 0 and len(ls) >= 2 and len(set(ls)) == 1 else 1
-    texts = list((c.get("texts") or {}).values()) or [c.get("text") or (c.get("shrunk") or {}).get("text")]
+    rc_total, did = 0, False
+    texts = list((c.get("texts") or {}).values()) if isinstance(c.get("texts"), dict) else list(c.get("texts") or [])
+    texts = texts or [c.get("text") or (c.get("shrunk") or {}).get("text")]
     texts = [t for t in texts if t]
     if texts:
+        did = True
         ms = model_parse(texts)
         ims = impl_dumps(impl, texts, [False] * len(texts))
         ok = True
         for t, m, i in zip(texts, ms, ims):
             print("text :", t); print("model:", m); print("impl :", i)
             ok = ok and model_verdict(m) == i
-        return 0 if ok and len(set(ims)) == 1 else 1
-    print(json.dumps(c, indent=1))
-    return 1
+        if not (ok and (len(set(ims)) == 1 or c.get("kind") == "text")):
+            rc_total = 1
+    prog = c.get("program")
+    if not prog and texts and c.get("values"):
+        prog = eval_program([(c["values"], texts)])
+    if prog:
+        did = True
+        rc, o, e = common.run_cb(impl, prog)
+        print("program:\n" + prog); print("rc", rc); print(o); print(e[:500])
+        ls = o.split("\n")[:-1] if o.endswith("\n") else o.split("\n")
+        if "expected" in c:
+            good = rc == 0 and ls == c["expected"]
+        else:
+            good = rc == 0 and len(ls) >= 2 and len(set(ls)) == 1
+            if good and c.get("value_of_the_tree") is not None:
+                good = ls[0] == str(c["value_of_the_tree"])
+        if not good:
+            rc_total = 1
+    if not did:
+        print(json.dumps(c, indent=1))
+        return 1
+    return rc_total
